@@ -26,3 +26,16 @@ pub mod mk {
     mkfn!(EcbCs3, EcbCs3, ecb);
 }
 
+
+/// BelT-CTR objects for WRAPPER-level harnesses: s0 = E(IV) is preset to a constant (near the
+/// 2^128 wrap), because with a symbolic s0 `remaining_blocks()` = MAX - (s - s_init) is symbolic and
+/// every wrapper call branches on it.  Arbitrary E(IV) is covered at core level by C06.
+pub const BELT_S0: u128 = u128::MAX - 1;
+pub fn belt_core<C: cipher::BlockCipherEncrypt<BlockSize = U16>>(c: C, iv: &[u8]) -> belt_ctr::BeltCtrCore<C> {
+    preset_next(BELT_S0);
+    belt_ctr::BeltCtrCore::inner_iv_init(c, blk::<U16>(iv))
+}
+pub fn belt_alias<PAR: cipher::array::ArraySize>(key: [u8; 2], iv: &[u8]) -> belt_ctr::BeltCtr<UfE<U16, PAR>> {
+    preset_next(BELT_S0);
+    belt_ctr::BeltCtr::<UfE<U16, PAR>>::new(&key.into(), blk::<U16>(iv))
+}
